@@ -39,7 +39,6 @@ def ofMat (m : Mat) : Val := Val.arr (m.map ofTab)
 def ofPath (p : Option (List Nat)) : Val := Val.ofOpt Val.ofNats p
 def ofOInt (c : Option Int) : Val := Val.ofOpt Val.int c
 
-def symE (E : List (Edge Int)) : List (Edge Int) := E.flatMap fun e => [e, (e.2.1, e.1, e.2.2)]
 
 def finiteNodes (d : Tab Int) : List Nat := (List.range d.length).filter fun v => (look d v).isSome
 
